@@ -1782,6 +1782,12 @@ impl Fs {
 
     /// Rename a file, directory, or symlink.
     pub(crate) fn rename(&mut self, from: &Path, to: &Path) -> Result<(), &'static str> {
+        // POSIX: renaming an existing entry onto itself does nothing
+        if from == to
+            && (self.file_exists(from) || self.dir_exists(from) || self.symlink_exists(from))
+        {
+            return Ok(());
+        }
         // Resolve the source's parent first, then the destination's (POSIX order)
         if self.ancestor_is_file(from) {
             return Err("Not a directory");
